@@ -20,7 +20,9 @@ ALLOWED_AXIOMS = ()
 CONFIGS_ALL = ["cfg-default", "cfg-pointer", "cfg-index-nocache-st", "cfg-pointer-nocache-mt",
                "cfg-index-nocache-mt", "cfg-index-cache-st", "cfg-pointer-nocache-st", "cfg-pointer-cache-st"]
 CONFIGS_QUICK = CONFIGS_ALL[:4]
-PROPS = ["C01", "C02", "C03", "C04", "C05", "C09", "C10", "C12"]
+PROPS = ["C01", "C02", "C03", "C04", "C05", "C09", "C10", "C11", "C12"]
+# TDDx: the tdd groups additionally run on a debug-profile build (debug assertions, overflow checks) of the default configuration
+CFG_DEBUG = "cfg-default-debug"
 DRV_ARGS = ["--props", ",".join(PROPS), "--digest-order"]
 
 
@@ -33,6 +35,8 @@ def configs(ctx):
 
 
 def build_cfg(cfg):
+    if cfg == CFG_DEBUG:
+        return vf.cargo_build(["h_dd"], profile="debug")["h_dd"]
     if cfg == "cfg-default":
         # the default feature set of the harness: shared target directory of all DD checks
         return vf.cargo_build(["h_dd"])["h_dd"]
@@ -56,7 +60,7 @@ def build(ctx):
     _, drv = ddcommon.build_dd(ctx)
     drv20 = build_model_driver(ctx)
     bins = {}
-    for cfg in configs(ctx):
+    for cfg in configs(ctx) + [CFG_DEBUG]:
         bins[cfg] = build_cfg(cfg)
     return bins, drv, drv20
 
@@ -179,6 +183,14 @@ def gen_groups(ctx):
     for _ in range(60 if thorough else 10):
         add("mtbdd", ddgen.mt_case_history("x", rng, length=60), threads=(1, 2, 8))
     add("mtbdd", ddgen.mt_case_pairs_1var("x", rng.choice(ddgen.MT_OPS)))
+    # TDD (package TDDx): sequential rule set on both node stores, with and without apply cache, single- and
+    # multi-threaded manager, 1 / 2 / 8 workers, release and debug profile
+    for _ in range(80 if thorough else 14):
+        add("tdd", ddgen.tdd_case_history("x", rng, length=60), threads=(1, 2, 8))
+    for _ in range(30 if thorough else 5):
+        add("tdd", ddgen.tdd_case_identities("x", rng, nv=rng.randrange(1, 5), nident=rng.choice([24, 40])), threads=(1, 8))
+    for _ in range(20 if thorough else 4):
+        add("tdd", ddgen.tdd_case_node_counts("x", rng, rng.randrange(2, 6), rng.choice([12, 24, 40]), 2))
     return groups
 
 
@@ -187,8 +199,15 @@ def cases_for(cfg, groups):
     for g, kind, cases in groups:
         if kind == "mtbdd" and not has_mtbdd(cfg):
             continue
+        if cfg == CFG_DEBUG and kind != "tdd":
+            continue
         res += cases
     return res
+
+
+def cfgs_of_kind(kind, cfgs):
+    """the configurations a group of this kind runs on"""
+    return [c for c in cfgs if not (kind == "mtbdd" and not has_mtbdd(c))] + ([CFG_DEBUG] if kind == "tdd" else [])
 
 
 def run_model_tie(ctx, bins, drv20, cfgs):
@@ -236,7 +255,7 @@ def run(ctx):
     dig = {}      # (cfg, case id) -> digest
     badmap = {}   # (cfg, case id) -> verdict text
     ok_total = 0
-    for cfg in cfgs:
+    for cfg in list(cfgs) + [CFG_DEBUG]:
         cases = cases_for(cfg, groups)
         ok, bad, digests = vf.lockstep_sharded(ctx, bins[cfg], drv, cases, drv_args=DRV_ARGS, tag="-" + cfg)
         ok_total += ok
@@ -249,7 +268,7 @@ def run(ctx):
     seen = set()
     ndiff = 0
     for g, kind, cases in groups:
-        runs = [(cfg, h.split()[0]) for cfg in cfgs if not (kind == "mtbdd" and not has_mtbdd(cfg)) for h, _ in cases]
+        runs = [(cfg, h.split()[0]) for cfg in cfgs_of_kind(kind, cfgs) for h, _ in cases]
         bads = [r for r in runs if r in badmap]
         ds = {f"{cfg}:{cid}": dig.get((cfg, cid)) for cfg, cid in runs}
         if bads:
@@ -306,7 +325,7 @@ def run(ctx):
              "three-variable functions, all 65536 ordered pairs per binary operator, sampled ite triples, under a seed-chosen "
              "variable order (3 in the thorough tier); random histories with gc/reorder/add_vars/quantification/"
              "substitution/sat_count over 3..7 variables; mtbdd<i64> histories and all pairs of the 121 one-variable functions "
-             "(index store only)); every group runs on every build configuration (" + ", ".join(cfgs) + "), histories and one "
+             "(index store only); tdd: random histories (constants, variables, not, 8 three-valued connectives, ite, cofactors, eval, clone/drop, gc, add_vars, set_var_order, node_count), identity cases and node-count cases under several orders, on every configuration and on a debug-profile build of the default configuration); every group runs on every build configuration (" + ", ".join(cfgs) + "), histories and one "
              "pair suite per kind additionally with 1, 2 and 8 workers; compared: driver verdict of every run (spec) and the "
              "digest of all result value tables, node counts, sat counts, variable orders across configurations x workers. "
              "non-trivial = group with >= 3 ops; distinct = distinct op lists",
